@@ -1467,8 +1467,11 @@ class Authenticated(BaseClientHandler):
                 results = await self.mbox.search(
                     cmd.search_key, cmd.uid_command, cmd.timeout_cm
                 )
+                # NOTE: "SEARCH" *(SP nz-number): with no results there is no
+                #       space after the word either.
+                #
                 await self.client.push(
-                    f"* SEARCH {' '.join(str(x) for x in results)}\r\n"
+                    "".join(["* SEARCH"] + [f" {x}" for x in results]) + "\r\n"
                 )
             except MailboxInconsistency as e:
                 self.optional_resync = False
